@@ -272,6 +272,12 @@ def run(report, p):
                             seen_in = True
                         else:
                             extra.append((ctxt, cl))
+                # ... membership in the names as listed by the walk, not in a transformed copy of them
+                for tt, l in deps:
+                    for cmpn in [x for x in ast.walk(tt.ast) if isinstance(x, ast.Compare) and len(x.ops) == 1 and isinstance(x.ops[0], (ast.In, ast.NotIn)) and "ascmhl_folder_name" in norm(x.left)]:
+                        for o in pr.origins(cmpn.comparators[0], df):
+                            plain = o[0] == "elem" and any(st_[0] == "call" and st_[1].endswith("os.walk") for st_ in subterms(o)) and not any(st_[0] == "op" for st_ in subterms(o))
+                            r7.check(plain, df, cmpn, f"the discovery looks for the history folder name in `{norm(cmpn.comparators[0])[:50]}` ({show(o)[:60]}), not in the directory names as listed: a folder whose name merely resembles it (other case, stripped, ...) is taken for a nested history although the loader, which joins the exact name, finds none there - create then writes a stray history into that folder, verify refuses the tree", construct="history folder name matched against transformed directory names")
                 r7.check(seen_root and seen_in and not extra, df, call, f"a nested history is loaded (and thereby verified) only under the additional condition {extra}: a nested ascmhl folder that fails it is silently treated as ordinary content", construct=f"child load under extra condition {extra}")
                 a0 = call.args[0] if call.args else None
                 r7.check(a0 is not None and all(o[0] == "elem" and is_call(o[1], "os.walk") for o in pr.origins(a0, df)) or (a0 is not None and any(o[0] == "elem" for o in pr.origins(a0, df))), df, call, "the nested history is not loaded from the directory that contains the ascmhl folder")
